@@ -177,7 +177,7 @@ fn exhaustive(shard: u64, nshards: u64, thorough: bool, st: &mut Stats) -> Resul
                     return Err(Fail::new(format!("DAG shape {shape:#x} ({n} nodes): merging two halves of order {perm:?} != the in-order state")));
                 }
                 if had_orphan && n >= 3 {
-                    st.nontrivial.insert(hash_of(&(n, shape, perm)));
+                    st.nontrivial_enumerated += 1;
                     if st.samples.len() < 2 && shape % 97 == 13 {
                         st.samples.push(json!({"nodes": n, "children_bitmap": format!("{shape:#x}"), "arrival_order": perm}));
                     }
